@@ -272,9 +272,18 @@ def run(ctx):
                 if good:
                     return True
             return False
+        from rules.common import reaches as _reaches
+        pop_stmt = next((st for st in ast.walk(hf.node) if isinstance(st, ast.Expr) and st.value is getattr(c, '_orig', c)), None)
         for sh in shapes:
             try:
-                got = guard_value({var: tuple(sh)})
+                # evaluate the statements that lead to the pop under this shape (the guard may read locals computed from the
+                # list); fall back to the conjunction of the enclosing conditions that mention the list
+                try:
+                    got = _reaches(hf.node, pop_stmt, {var: tuple(sh)}, folder, {var}) if pop_stmt is not None else None
+                except Unknown:
+                    got = None
+                if got is None:
+                    got = guard_value({var: tuple(sh)})
             except Unknown as e:
                 raise AnalysisError('cannot fold the pop guard %s: %s' % (txt(ifn.test), e))
             except Exception:
